@@ -150,8 +150,11 @@ def oracle(ctx, kind, p):
                 if indent == -1 and p['i'] % 3 == 0 and gs:
                     # a text that does not start with a graph: whatever it means, it means the same
                     # in every container
-                    for pre in ('\ufeff', '\u2028', 'x ', '\x0c', ') '):
-                        t2 = pre + text_lf
+                    for pre in ('\ufeff', '\u2028', 'x ', '\x0c', ') ', '\n\n', 'SUF:\n# end', 'SUF: # x', 'SUF:\n\n\n',
+                                'SUF:\n# ::k v\n', 'SUF:\r', 'SUF: ('):
+                        # (SUF: the same after the last graph - a trailing comment, blank lines, a lone CR,
+                        #  an unfinished graph: whatever it means, it means the same in every container)
+                        t2 = text_lf + pre[4:] if pre.startswith('SUF:') else pre + text_lf
                         p2 = os.path.join(tmpdir, 'pre.txt')
                         with open(p2, 'w', encoding='utf-8', newline='') as fh:
                             fh.write(t2)
